@@ -396,6 +396,8 @@ def undischarged_in(ctx, body):
 
 # Audited sites that may legitimately appear in another shape after a behaviour-preserving edit.
 ALT_SHAPES = [
+    {"pattern": r"^<op_repeat::GreedyRepeatIterator as std::iter::Iterator>::next\|unwrap:unwrap\(last_mut\(a1\.iterations\)\)$",
+     "reason": "the greedy stack kept as one vector of entries {matches, position} instead of two parallel vectors: non-empty for the same reason (the enclosing test just established it, or an entry was pushed immediately before; REPEAT-ITER reads both representations)"},
     {"pattern": r"^analyze_string::AnalyzeIter::compute_nesting_table\|BoundsCheck\(len\(a1\), add\(1, (<Enumerate<I> as Iterator>::)?next\((Iterator::enumerate\([^()]*\(?a1\)*|v)\) as Some\.0\.0\)\)$",
      "reason": "the look-ahead pattern[i + 1] after a '(' with i the index delivered by an enumerating iterator over the pattern instead of a cursor variable: runs only on the text of a pattern the parser accepted (gated on !is_literal, LITERAL-ANALYZE), in which every '(' has a successor"},
     {"pattern": r"^re_matcher::ReMatcher::get_paren\|index:index\(a1\.search, Range::Range\{start: [^{}]*a1\.state\.capture_state\.startn[^{}]* as Some\.0, end",
